@@ -30,5 +30,9 @@ def run(ctx):
     # ---------------------------------------------------------------- C07.ARGS
     from ..rules_common import check_call_arguments
     check_call_arguments(ctx, "C07.ARGS", "C07")
+    from ..rules_common import check_effect_tables
+    check_effect_tables(ctx, "C07")
+    from ..rules_common import check_presence_tests, ARG_SCOPE
+    check_presence_tests(ctx, "C07.PRESENCE", classes=ARG_SCOPE.get("C07", []))
 
 
